@@ -10,9 +10,9 @@
 (* printed as a REPLAY line and stepped through the real code              *)
 (* (bin/check Mxx / `vh replay-sweep`): a difference is SPEC-DRIFT.        *)
 (***************************************************************************)
-EXTENDS Sweep, Stages, Json
+EXTENDS Sweep, Stages, Json, IOUtils
 
-CONSTANTS Family,       \* "tri" | "pair" | "pairB" | "nest" | "nest2" | "isl2" | "star3" | "quad"
+CONSTANTS Family,       \* "tri" | "pair" | "pairB" | "nest" | "nest2" | "isl2" | "star3" | "quad" | "file"
           N, L,         \* lattice 0..N scaled by L
           Stride, Offset,   \* sub-sampling of the family (Stride = 1: everything)
           REPLAY        \* print REPLAY lines
@@ -64,6 +64,13 @@ TKey(t) == ((t[2][1] \div L) * (N + 1) + (t[2][2] \div L)) * (N + 1) * (N + 1) +
 Rev(t) == <<t[1], t[3], t[2], t[1]>>
 FrameHoles(a, a2, a3) == << <<Frame[1][1], Rev(a), Rev(a2), Rev(a3)>> >>
 
+\* Family "file": the inputs of ANY generator family of the harness (one JSON line {A, B, op} per input,
+\* file named by the environment variable MCINPUTS; rings closed, integer coordinates with integral
+\* meeting points).  This is how the enumerated families of gen.rs (every pair of subsets of a small
+\* triangulated lattice) and the structured families (pinch, lamina, ...) reach Layer M: M |= P is
+\* checked on exactly the inputs the real code is run on, and every behaviour is replayed.
+FileInputs == ndJsonDeserialize(IOEnv.MCINPUTS)
+
 Init ==
   /\ labs = <<>>
   /\ CASE Family = "tri"  -> \E a \in Tris : \E b \in Tris : Sel2(a, b) /\ \E o \in Ops : SInit(TriMp(a), TriMp(b), o)
@@ -90,6 +97,7 @@ Init ==
                                 Lex(b[1], b2[1]) /\ Sel2(b, b2) /\ Compatible(b, b2)
                                 /\ \E o \in Ops : (SInit(Annulus, TriMp(b) \o TriMp(b2), o) \/ SInit(TriMp(b) \o TriMp(b2), Annulus, o))
        [] Family = "quad" -> \E a \in Quads : \E b \in Tris : Sel2(a, b) /\ \E o \in Ops : SInit(QuadMp(a), TriMp(b), o)
+       [] Family = "file" -> \E i \in 1..Len(FileInputs) : SInit(FileInputs[i].A, FileInputs[i].B, FileInputs[i].op)
 
 Next == SNext /\ labs' = Append(labs, lab')
 Spec == Init /\ [][Next]_mcvars
